@@ -453,6 +453,8 @@ BrStep(s0) ==
             ELSE IF ev = "scaling" /\ p.phase = "Progressing" THEN [s |-> [st0 EXCEPT !.br.bstate = "Upgrading", !.br.obsR = st0.wl.R], stop |-> FALSE]
             ELSE IF ev = "revision" /\ p.phase = "Progressing" THEN [s |-> [st0 EXCEPT !.br.updRev = st0.wl.updRev], stop |-> TRUE]
             ELSE IF ev = "unstable" THEN [s |-> st0, stop |-> TRUE]
+            \* a rollback without the rollback-in-batch annotation: "preparing rollback, wait" (the Rollout cancels)
+            ELSE IF (ev = "rollback" \/ p.rollbackAnno) /\ p.noNeed = -1 /\ p.phase = "Progressing" THEN [s |-> st0, stop |-> TRUE]
             ELSE [s |-> st0, stop |-> FALSE]
       \* refreshStatus
       sR == LET x == sp.s IN
@@ -533,10 +535,18 @@ EnvSet(s, a) ==
     [] a = "env.unready" ->
          {Recount([s EXCEPT !.wl.rd = Bump(s.wl.rd, u, -1)])}
     [] a = "env.scale" ->
+         LET pc == PartitionCount(s.wl.ktype, s.wl.kval, s.wl.R)
+             oldN == Pods(s) - s.wl.n[u]
+         IN
          IF Pods(s) < s.wl.R
-         THEN {Recount([s EXCEPT !.wl.n = Bump(s.wl.n, r, 1)]) : r \in {u, s.wl.stableRev} \cap (1..3)}
-         ELSE {Recount([s EXCEPT !.wl.n = Bump(s.wl.n, r, -1), !.wl.rd = Bump(s.wl.rd, r, -dr), !.wl.labelled = s.wl.labelled - dl]) :
-                 r \in {x \in 1..3 : s.wl.n[x] > 0}, dr \in {0, 1}, dl \in {0, 1}}
+         THEN \* scale-out: pods are created at the current revision while fewer than ceil(partition) old pods exist
+              LET r == IF oldN >= pc \/ s.wl.stableRev \notin 1..3 THEN u ELSE s.wl.stableRev
+              IN  {Recount([s EXCEPT !.wl.n = Bump(s.wl.n, r, 1)])}
+         ELSE \* scale-in keeps ceil(partition) old pods: an old pod goes only while more than that exist
+              LET wantOld == oldN > pc \/ s.wl.n[u] = 0
+                  cand == IF wantOld THEN {x \in 1..3 : x # u /\ s.wl.n[x] > 0} ELSE {u}
+              IN  {Recount([s EXCEPT !.wl.n = Bump(s.wl.n, r, -1), !.wl.rd = Bump(s.wl.rd, r, -dr), !.wl.labelled = s.wl.labelled - dl]) :
+                     r \in cand, dr \in {0, 1}, dl \in {0, 1}}
     [] OTHER -> {s}
 
 WellFormedPods(s) == \A r \in 1..3 : s.wl.rd[r] >= 0 /\ s.wl.rd[r] <= s.wl.n[r] /\ s.wl.n[r] >= 0
@@ -595,7 +605,9 @@ StepSet(p, a) ==
 
 \* the fields the model claims (everything except ghost history, budgets and rollout-id strings)
 ModelView(s) == [ro |-> [s.ro EXCEPT !.rid = ""], br |-> [s.br EXCEPT !.rid = "", !.obsRid = ""],
-                 wl |-> [s.wl EXCEPT !.lab = <<>>], net |-> [s.net EXCEPT !.svcSelKeys = 0], mem |-> s.mem, user |-> s.user]
+                 \* pod labels are decided by LabelPatch.tla (C12); the closed-loop model only reads the count
+                 wl |-> [s.wl EXCEPT !.lab = <<>>, !.labelled = 0],
+                 net |-> [s.net EXCEPT !.svcSelKeys = 0], mem |-> s.mem, user |-> s.user]
 
 RecDiff(a, b, pfx) == {pfx \o "." \o f : f \in {g \in DOMAIN a : a[g] # b[g]}}
 ViewDiff(a, b) ==
